@@ -331,8 +331,53 @@ func TestC04Mutations(t *testing.T) {
 			rt.Skip()
 		}
 		mutated, op := doc, "none"
-		for i := rapid.IntRange(1, 2).Draw(rt, "nmut"); i > 0; i-- {
-			mutated, op = mutateDoc(rt, mutated)
+		if format != "query" && rapid.IntRange(0, 3).Draw(rt, "structural") == 0 {
+			// a structural mutation first: one member of some object of the document occurs twice (same key, its own value
+			// again or a sibling's), rendered by the reference encoder
+			ror2 := format != "json" && format != "pretty"
+			tr := refcodec.TreeOf(S, ty, v, refcodec.Opts{Bytes: refcodec.RawUTF8, ROR2: ror2})
+			var objs []*refcodec.Tree
+			var walk func(x *refcodec.Tree)
+			walk = func(x *refcodec.Tree) {
+				if x == nil {
+					return
+				}
+				if x.Kind == "obj" && len(x.Obj) > 0 {
+					objs = append(objs, x)
+				}
+				for _, kv := range x.Obj {
+					walk(kv.V)
+				}
+				for _, y := range x.Arr {
+					walk(y)
+				}
+			}
+			walk(tr)
+			if len(objs) > 0 {
+				o := objs[rapid.IntRange(0, len(objs)-1).Draw(rt, "dupobj")]
+				m := o.Obj[rapid.IntRange(0, len(o.Obj)-1).Draw(rt, "dupmember")]
+				val := o.Obj[rapid.IntRange(0, len(o.Obj)-1).Draw(rt, "dupvalue")].V.Clone()
+				at := rapid.IntRange(0, len(o.Obj)).Draw(rt, "dupat")
+				o.Obj = append(o.Obj[:at:at], append([]refcodec.KV{{K: m.K, V: val}}, o.Obj[at:]...)...)
+				if ror2 {
+					mutated = refcodec.RenderROR2(tr, refcodec.ROR2Opts{Flavour: flavourOf(format)})
+				} else {
+					mutated = refcodec.RenderJSON(tr, refcodec.JSONOpts{})
+				}
+				op = "duplicate_member"
+			}
+		}
+		for i := rapid.IntRange(0, 2).Draw(rt, "nmut"); i > 0 || op == "none"; i-- {
+			var bop string
+			mutated, bop = mutateDoc(rt, mutated)
+			if op == "duplicate_member" {
+				op = "duplicate_member+" + bop
+			} else {
+				op = bop
+			}
+			if i <= 0 {
+				break
+			}
 		}
 		entry := map[string]string{"json": "json", "pretty": "json", "header": "ror2", "path": "ror2", "query": "query"}[format]
 		shape := ty.String()
